@@ -62,6 +62,13 @@ def generate(rng, tier, index):
                 "image": 0, "others": "none", "ks": [{"shard": [index % SHARDS, SHARDS]}],
                 "exhaustive": True}
     scenario = rng.choice(["S0", "S0", "S0", "S1", "S1", "S2", "S3", "S4", "S4", "S4", "S5"])
+    # one run in sixteen is the canonical "interrupted tool run, then the tool again" history
+    # (local store, image of >= 6 lines, small --rpc so that the scan has several steps, eight
+    # operation-level crash points, a complete tool run with another --rpc afterwards): whether a
+    # batch contains enough of these must not depend on the seed (seeded-C09-agent11 did)
+    forced_tool = index % 16 == 5
+    if forced_tool:
+        scenario = rng.choice(["S1", "S1", "S2"])
     if scenario == "S0":
         wp = _small_world(rng, ("local", "file", "simfs", "simfs_opt"))
         n_k = 16 if tier == "quick" else 40
@@ -77,7 +84,13 @@ def generate(rng, tier, index):
                 "location": rng.choice(["user", "user", "adjacent", "both"]),
                 "image": rng.randrange(len(wp["images"])),
                 "others": rng.choice(["none", "complete"])}
-    wp = _small_world(rng, ("local", "local", "file", "simfs", "simfs_opt"))
+    wp = _small_world(rng, ("local", "file") if forced_tool else
+                      ("local", "local", "file", "simfs", "simfs_opt"))
+    if forced_tool:
+        for im in wp["images"]:
+            im["lines"] = max(im["lines"], 6)
+        wp["dirs"] = [d for d in wp.get("dirs", []) if d.isascii() and " " not in d
+                      and "#" not in d and "%" not in d and "?" not in d]
     local = wp["backend"] in world.LOCAL
     plan = {"scenario": scenario, "world": wp}
     if scenario in ("S1", "S2"):
@@ -120,6 +133,15 @@ def generate(rng, tier, index):
             # several crash points of one run, at operation granularity
             plan["ats"] = [plan["at"]] + [{"event": e} for e in
                                           sorted(rng.sample(range(0, 18), 5))]
+            plan["chunk"] = rng.choice([64, 512, 4096, 1 << 30])
+        if forced_tool:
+            plan["writer"] = "cli"
+            plan["nth"] = 0
+            plan["preexisting"] = "none"
+            plan["cli_rpc"] = rng.choice([1, 2, 2, 3])
+            plan["tool_rerun_rpc"] = rng.choice([None, 1, 2, 3, 4, 7, 4096])
+            plan["at"] = {"event": rng.randrange(2, 12)}
+            plan["ats"] = [plan["at"]] + [{"event": e} for e in sorted(rng.sample(range(0, 30), 7))]
             plan["chunk"] = rng.choice([64, 512, 4096, 1 << 30])
         if plan["preexisting"] == "moved":
             # the old and the new document differ late in the text (stored location): several
